@@ -24,8 +24,9 @@ func init() {
 	h.Register(&h.Prop{
 		ID: "C03",
 		Rule: "cases: ver = tbls.Verify of one entry (valid shares; EVERY single-bit modification of a valid 66-byte share; message and commitment modified; junk catalogue), " +
-			"blsver = bls.Verify of a plain signature (valid, every bit of it flipped, wrong key, wrong message), " +
-			"rec = tbls.Recover with k valid distinct members for EVERY subset of size < t of all 1<=t<=n<=8 (exhaustive) and sampled k<t up to n=32, padded with replays in other encodings, " +
+			"blsver = bls.Verify of a plain signature (valid, every bit of it flipped, wrong key, wrong message, non-identity signatures under the identity key), " +
+			"root = polynomials with a root at a member's point (identity share key, t>=2): every junk kind and curve points under that index through ver and rec, " +
+			"rec = tbls.Recover with k valid distinct members for EVERY subset of size < t of all 1<=t<=n<=8 (the exhaustive space of the flag, both tiers) and sampled k<t up to n=32, padded with replays in other encodings, " +
 			"re-indexed, out-of-range, other-message and foreign-polynomial entries, large groups (n up to 300, member indices around 64 and 256) below threshold with re-encoded replays; " +
 			"hist = call sequences sharing a mutable message buffer (m1 shares/signatures offered again after the buffer was overwritten with m2); non-trivial = every case; distinct = distinct case line",
 		Gen:        gen,
@@ -193,6 +194,58 @@ func gen(tier string, rng *h.Rng, emit0 func(string)) {
 		emit(fmt.Sprintf("blsver %s %s %s -", hs, x, msgTok))
 		emit(fmt.Sprintf("blsver %s 0 %s %s", hs, msgTok, h.Hex(make([]byte, 64))))
 	}
+	// 1b. identity share keys (review B #2): the polynomial has a ROOT at member i's point, t >= 2, so
+	// public.Eval(i) is the identity of G2 and the only share that may verify under index i is the
+	// identity of G1. A verifier that lets anything pass under an identity key is caught here.
+	nroot := 12
+	if thorough {
+		nroot = 120
+	}
+	for k := 0; k < nroot; k++ {
+		n := 2 + rng.Intn(6)
+		t := 2 + rng.Intn(n-1)
+		i := rng.Intn(n)
+		coeffs := c02.RootPoly(rng, t, i)
+		msgTok := h.Hex(rng.Bytes(rng.Intn(20)))
+		hs := c02.HashScalar(c02.Msg(msgTok))
+		idx := []byte{byte(i >> 8), byte(i)}
+		// the true share (identity) and alternative encodings of it
+		v := c02.ValidShare(coeffs, hs, i)
+		emit(fmt.Sprintf("ver %s %s %s %s", hs, c02.CSVOf(coeffs), msgTok, h.Hex(v)))
+		emit(fmt.Sprintf("ver %s %s %s %s", hs, c02.CSVOf(coeffs), msgTok, h.Hex(append(append([]byte{}, v...), c02.Tail(rng)...))))
+		// curve points under that index: the base point, random multiples, H(m) itself, another member's share
+		for _, kk := range []*big.Int{big.NewInt(1), hs, rng.Big(c02.R), new(big.Int).Sub(c02.R, big.NewInt(1))} {
+			emit(fmt.Sprintf("ver %s %s %s %s", hs, c02.CSVOf(coeffs), msgTok, h.Hex(append(append([]byte{}, idx...), c02.G1Bytes(kk)...))))
+		}
+		o := c02.ValidShare(coeffs, hs, (i+1)%n)
+		o[0], o[1] = idx[0], idx[1]
+		emit(fmt.Sprintf("ver %s %s %s %s", hs, c02.CSVOf(coeffs), msgTok, h.Hex(o)))
+		for kind := 0; kind < c02.NJunk; kind++ {
+			emit(fmt.Sprintf("ver %s %s %s %s", hs, c02.CSVOf(coeffs), msgTok, h.Hex(c02.Junk(rng, kind, coeffs, hs, n, i))))
+		}
+		// plain BLS under the key 0 (identity of G2): only the identity signature verifies
+		for _, kk := range []*big.Int{big.NewInt(1), hs, rng.Big(c02.R)} {
+			emit(fmt.Sprintf("blsver %s 0 %s %s", hs, msgTok, h.Hex(c02.G1Bytes(kk))))
+		}
+		emit(fmt.Sprintf("blsver %s 0 %s %s", hs, msgTok, h.Hex(make([]byte, 64))))
+		// Recover: t-1 valid members + curve points under the root member's index stay below threshold …
+		var others []int
+		for _, j := range rng.Perm(n) {
+			if j != i {
+				others = append(others, j)
+			}
+		}
+		var es [][]byte
+		for _, j := range others[:t-1] {
+			es = append(es, c02.ValidShare(coeffs, hs, j))
+		}
+		forged := append(append([]byte{}, idx...), c02.G1Bytes(rng.Big(c02.R))...)
+		below := append(append([][]byte{}, es...), forged, o)
+		emit(recLine(t, n, coeffs, msgTok, below))
+		emit(recLine(t, n, coeffs, msgTok, append([][]byte{forged}, es...)))
+		// … and with the identity share they qualify
+		emit(recLine(t, n, coeffs, msgTok, append(append([][]byte{forged}, es...), v)))
+	}
 	// 2. the junk catalogue and valid shares through tbls.Verify
 	nj := 6
 	if thorough {
@@ -211,7 +264,7 @@ func gen(tier string, rng *h.Rng, emit0 func(string)) {
 		for _, i := range []int{0, 1, n - 1, n, 255, 256, 65535} {
 			v := c02.ValidShare(coeffs, hs, i)
 			emit(fmt.Sprintf("ver %s %s %s %s", hs, c02.CSVOf(coeffs), msgTok, h.Hex(v)))
-			emit(fmt.Sprintf("ver %s %s %s %s", hs, c02.CSVOf(coeffs), msgTok, h.Hex(append(v, rng.Bytes(1+rng.Intn(4))...))))
+			emit(fmt.Sprintf("ver %s %s %s %s", hs, c02.CSVOf(coeffs), msgTok, h.Hex(append(v, c02.Tail(rng)...))))
 		}
 	}
 	// 3. EXHAUSTIVE below threshold: every subset of size < t, all 1 <= t <= n <= 8, each with a padding
@@ -251,7 +304,7 @@ func gen(tier string, rng *h.Rng, emit0 func(string)) {
 						}
 					case 1:
 						if len(in) > 0 {
-							es = append(es, append(c02.ValidShare(coeffs, hs, in[rng.Intn(len(in))]), rng.Bytes(1+rng.Intn(3))...))
+							es = append(es, append(c02.ValidShare(coeffs, hs, in[rng.Intn(len(in))]), c02.Tail(rng)...))
 						}
 					case 2:
 						if len(out) > 0 {
